@@ -317,6 +317,16 @@ pub fn run(tier: &str) -> i32 {
             }
         }
     }
+    // the bound struct (or a struct nested in it) shared with a var<private> / var<workgroup> declared before or after
+    {
+        let n0 = progs.len();
+        for i in 0..n0 {
+            if (thorough && i % 5 == 0) || i % 37 == 0 || progs[i].key == "s1|Inner" || progs[i].key == "s1|Deep" {
+                let v = sibling_variants(&progs[i]);
+                progs.extend(v);
+            }
+        }
+    }
     // member / element types written through `alias` declarations
     {
         let n0 = progs.len();
@@ -379,7 +389,7 @@ pub fn run(tier: &str) -> i32 {
                 }
                 (Some(t), v)
             }
-            other => (None, vec![format!("<generator not Ok: {}>", other.class())]),
+            other => (None, vec![format!("<generator not Ok>{}", other.class())]),
         }
     });
     for ((i, r), (text, viols)) in items.iter().zip(res.iter()) {
@@ -388,7 +398,10 @@ pub fn run(tier: &str) -> i32 {
         rep.transitions += p.env.get(&p.root).members.len() as u64;
         rep.evaluations += 1;
         if text.is_none() {
-            rep.filtered(&viols[0]);
+            match viols[0].strip_prefix("<generator not Ok>") {
+                Some(class) => rep.generation_failed(format!("{}|{r:?}", p.key), class, &p.src, &cfg_for(*r)),
+                None => rep.filtered(&viols[0]),
+            }
             continue;
         }
         rep.nontrivial.insert(hash64(&format!("{}{r:?}", p.src)));
